@@ -147,6 +147,12 @@ def cases(draw):  # pylint: disable=too-many-locals,too-many-branches,too-many-s
                     ext = dict(ext)
                     for c in codes:
                         ext[c] = draw(st.sampled_from(["exclude", "first", "last", "merge"] if c != "M117" else ["exclude", "first", "last"]))
+                    if draw(st.booleans()):
+                        # ... or deletes a row / configures a code that has been passing through so far
+                        gone = draw(st.sampled_from(codes))
+                        ext.pop(gone, None)
+                        newc = draw(st.sampled_from(POOL))
+                        ext.setdefault(newc, draw(st.sampled_from(["first", "last", "exclude"])))
                     prog.append(["set_ext", dict(ext)])
             elif end == "disable":
                 prog.append(["at", "ExcludeRegion", "off"])
